@@ -1258,6 +1258,9 @@ func (x *Exec) havocLoop(st *State, f *Frame, lp int) {
 	// references held in the havocked families denote objects that exist
 	if !dr.all {
 		for _, fam := range famsSorted(dr.written) {
+			if hh := st.heaps[fam]; hh != nil && strings.HasSuffix(fam, "#len") && hh.Elem == SInt && len(hh.Dims) >= 1 {
+				st.asserts = append(st.asserts, lenNonNeg(hh))
+			}
 			if _, ok := refFams.Load(fam); !ok {
 				continue
 			}
@@ -1432,6 +1435,7 @@ func (st *State) havocAll(why string) {
 		st.rec.all = true
 	}
 	st.heaps = map[string]*HeapVer{}
+	st.epochAlloc = st.alloc
 	st.advanceClock()
 	st.notes = append(st.notes, "havoc-all: "+why)
 }
